@@ -514,6 +514,21 @@ func C_conc_same_kind() {
 	vnd.NoRaces("")
 }
 `)
+	// round 7 (seed C19-m13): receivers of every call kind held in rule locals, next to assignments to other locals
+	b.WriteString(`
+func C_conc_local_receivers() {
+	dc := newDC(nil)
+	dc.Add("mkw", func() *zzOuter { return &zzOuter{In: &zzObj{N: 4}} })
+	dc.Add("mk", func() *zzObj { return &zzObj{N: 3} })
+	rb := buildTextPlain(dc, "rule \"r\" begin\n h = mkw()\n o = mk()\n conc {\n  h.In.Touch(false)\n  a = 1\n  o.Touch(false)\n  b = 2\n  h.In.Touch(false)\n  c = 3\n }\n return a + b + c\nend\n")
+	eng := NewGengine()
+	err := eng.Execute(rb, true)
+	vnd.Assert(err == nil, "no member fails")
+	vnd.Reach("executed")
+	vnd.NoRaces("")
+}
+`)
+	fam.Instances = append(fam.Instances, Instance{Func: "C_conc_local_receivers", Stratum: "conc", Desc: "conc block with three-level and method calls on rule-local receivers next to assignments to locals", Expect: []string{"executed"}})
 	fam.Instances = append(fam.Instances, Instance{Func: "C_conc_same_kind", Stratum: "conc", Desc: "conc blocks with several members of one kind", Expect: []string{"executed"}})
 	fam.Instances = append(fam.Instances, Instance{Func: "C_conc_blocks", Stratum: "conc", Desc: "conc block with every member kind, local and injected receivers", Expect: []string{"executed"}})
 	// pool: two requests
